@@ -595,13 +595,56 @@ impl Namer {
         loop {
             let w = *r.pick(WORDS);
             self.n += 1;
+            let w2 = *r.pick(WORDS);
+            let n = self.n;
+            // names vary in length, case, digits, underscores and shared prefixes
             let cand = match style {
-                "type" => format!("{}{}", pascal(w), self.n),
-                "variant" => format!("{}{}", pascal(w), self.n),
-                "cmd" => format!("{}_{}", w, self.n),
-                "field" => format!("{}_{}", w, self.n),
-                "event" => format!("{}-{}", w.replace('_', "-"), self.n),
-                _ => format!("{}{}", w, self.n),
+                "type" => match r.below(8) {
+                    0 => format!("{}{}{}", pascal(w), pascal(w2), n),
+                    1 => format!("{}{}", w.chars().next().unwrap().to_uppercase(), n),
+                    2 => format!("{}{}", w.to_uppercase().replace('_', ""), n),
+                    3 => {
+                        // shares a prefix with an existing type name
+                        let existing: Vec<&String> = self
+                            .used
+                            .iter()
+                            .filter(|u| u.chars().next().map(|c| c.is_uppercase()).unwrap_or(false) && u.chars().all(|c| c.is_ascii_alphanumeric()))
+                            .collect();
+                        if existing.is_empty() {
+                            format!("{}{}", pascal(w), n)
+                        } else {
+                            format!("{}{}{}", r.pick(&existing), r.pick(&["Ext", "Id", "List", "s", "2"]), n)
+                        }
+                    }
+                    _ => format!("{}{}", pascal(w), n),
+                },
+                "variant" => match r.below(4) {
+                    0 => format!("{}{}{}", pascal(w), pascal(w2), n),
+                    1 => format!("{}{}", w.to_uppercase().replace('_', ""), n),
+                    _ => format!("{}{}", pascal(w), n),
+                },
+                "cmd" => match r.below(5) {
+                    0 => format!("{}_{}_{}", w, w2, n),
+                    1 => format!("{}{}", w.replace('_', ""), n),
+                    _ => format!("{}_{}", w, n),
+                },
+                "field" => match r.below(9) {
+                    0 => format!("{}_{}_{}", w, w2, n),
+                    1 => format!("{}{}", &w[..1], n),
+                    2 => format!("{}_{}_id", w, n),
+                    3 => format!("_{}_{}", w, n),
+                    4 => format!("{}_{}_{}_{}_{}", w, w2, w, w2, n),
+                    5 => format!("{}{}_{}", w, n, w2),
+                    _ => format!("{}_{}", w, n),
+                },
+                "event" => match r.below(6) {
+                    0 => format!("{}_{}_{}", w, w2, n),
+                    1 => format!("{}:{}-{}", w.replace('_', "-"), w2.replace('_', "-"), n),
+                    2 => format!("{}.{}.{}", w.replace('_', ""), w2.replace('_', ""), n),
+                    3 => format!("{}-{}", w.replace('_', "-").to_uppercase(), n),
+                    _ => format!("{}-{}", w.replace('_', "-"), n),
+                },
+                _ => format!("{}{}", w, n),
             };
             if self.used.insert(cand.clone()) {
                 return cand;
